@@ -3,6 +3,7 @@ C10 — Conditions decide what their names say; loops make exactly n passes.
 Property theorems only; helper lemmas are in `Proofs/C10.lean`.
 -/
 import MahfModel.Proofs.C10
+import MahfModel.Proofs.C10Loops
 import MahfModel.Proofs.C09
 namespace MahfModel.Props.C10
 open MahfModel.Conditions
@@ -335,5 +336,189 @@ example : changeOfRunR (partialEq (V := Nat)) none [none, some 5, some 5, none, 
     [some true, some false, some true, some false] := by decide
 example : (loopRun (F := Nat) id 7 1 3 5).map (fun s => (s.passes, s.tests, s.counter)) = some (4, 5, 7) := by decide
 example : loopChangeRun partialEq 2 7 [] = some [1, 1] ∧ loopChangeRun partialEq 2 7 [8, 8] = some [2, 1] := by decide
+
+/-! ### Iteration-bounded loops inside a State: nesting, scopes, repeated runs -/
+
+/-- **Every loop of a well-scoped configuration counts what its bound says** — for every tree in
+which each loop is the only loop on its registry level (nested loops wrapped in a `Scope`, as mahf
+prescribes; any depth), for EVERY registry chain `r` the run starts from (whatever counters or
+progress values the state or the enclosing scopes already hold): `Configuration::run` (and so every
+entry of every `Scope`) produces exactly the log the state-free specification says — each entry of
+a loop bounded by `n` tests at the values 0 … n with verdicts `true × n, false`, reports progress
+`k / n` at test `k`, runs its body once after each `true` test with the leaves seeing `k` —, it
+leaves all parent registries untouched, and the counter visible afterwards is the specified one. -/
+theorem nested_loops_exactly_n {F : Type} [Div F] [OfNat F 0] (toF : Nat → F) (is : LItems)
+    (h : wellScoped is = true) (fuel : Nat) (hf : maxNs is < fuel) (r : LReg F) (log : List (LEvent F)) :
+    ∃ top' : LFrame F,
+      lRun toF fuel is r log = .ok { top := top', rest := r.rest } (log ++ (specRun toF is r.iters).1) ∧
+      ({ top := top', rest := r.rest } : LReg F).iters = (specRun toF is r.iters).2 := by
+  simp only [wellScoped, Bool.or_eq_true] at h
+  rcases h with h | h
+  · refine ⟨r.top, ?_, ?_⟩
+    · rw [lRun, lInits_lvl0s is h, lExecs_lvl0s toF fuel is h hf]
+      simp [specRun, lvl0s_not_lvl1s is h]
+    · simp only [specRun, lvl0s_not_lvl1s is h]
+      rw [specItems_lvl0s_cur toF is h]
+      rfl
+  · obtain ⟨top', m, e, hi, hs, _⟩ := lExecs_lvl1s toF fuel is h hf (some 0) r.rest log
+    refine ⟨top', ?_, ?_⟩
+    · rw [lRun, lInits_lvl1s is h, e]
+      simp [specRun, h]
+    · simp only [specRun, h, if_true, hs]
+      exact LReg.iters_of_top _ m hi
+
+/-- The clause for a nested loop, spelled out: each entry of an inner loop bounded by `m` that sits
+in its own `Scope` makes exactly `m` passes — `true` tests at 0 … m−1 with progress `k / m`, the
+body after each, one `false` test at `m` with progress `m / m` — whatever the enclosing registries
+`r` hold (in particular whatever the enclosing loop's counter is), and leaves them exactly as they were. -/
+theorem scoped_loop_exactly_m {F : Type} [Div F] [OfNat F 0] (toF : Nat → F) (id m : Nat) (body : LItems)
+    (hb : lvl0s body = true) (fuel : Nat) (hf : max m (maxNs body) < fuel) (r : LReg F) (log : List (LEvent F)) :
+    lExec toF fuel (.scope (.cons (.loop id m body) .nil)) r log =
+      .ok r (log ++ ((List.range' 0 m).flatMap (fun k =>
+          LEvent.test id true k (some (toF k / toF m)) :: (specItems toF body (some k)).1) ++
+        [.test id false m (some (toF m / toF m))])) := by
+  have h0 : lvl0 (.scope (.cons (.loop id m body) .nil)) = true := by simp [lvl0, lvl0s, lvl1s, lvl1, hb]
+  rw [lExec_lvl0 toF fuel _ h0 (by simp [maxN, maxNs]; omega)]
+  simp [specItem, specItems]
+
+/-- Repeated runs of the same configuration on the same State (the second run finds the counter
+and the progress of the first): the `k` runs produce the `k` specified logs one after the other.
+If the configuration has its loop on the root level, every run produces the same log — the
+counter left behind by an earlier run (or put there by the user) does not matter. -/
+theorem rerun_exactly_n {F : Type} [Div F] [OfNat F 0] (toF : Nat → F) (is : LItems)
+    (h : wellScoped is = true) (fuel : Nat) (hf : maxNs is < fuel) (k : Nat) (r : LReg F) (log : List (LEvent F)) :
+    (∃ top' : LFrame F, lRunTimes toF fuel is k r log =
+        .ok { top := top', rest := r.rest } (log ++ specRunTimes toF is k r.iters)) ∧
+    (lvl1s is = true → ∀ c c' : Option Nat, specRun toF is c = specRun toF is c') := by
+  refine ⟨?_, fun h1 c c' => by simp [specRun, h1]⟩
+  induction k generalizing r log with
+  | zero => exact ⟨r.top, by simp [lRunTimes, specRunTimes]⟩
+  | succ k ih =>
+    obtain ⟨top1, e1, hi1⟩ := nested_loops_exactly_n toF is h fuel hf r log
+    obtain ⟨top2, e2⟩ := ih { top := top1, rest := r.rest } (log ++ (specRun toF is r.iters).1)
+    refine ⟨top2, ?_⟩
+    rw [lRunTimes, e1]
+    simp only [e2, hi1, specRunTimes, List.append_assoc]
+
+/-- Counting a loop's log: in `true`-test-then-body × n followed by one `false` test, loop `id`
+is tested exactly `n + 1` times and makes exactly `n` passes (for any bodies that do not themselves
+contain tests of `id`). -/
+theorem loop_log_counts {F : Type} (id n : Nat) (body : Nat → List (LEvent F)) (p : Nat → Option F)
+    (hb : ∀ k, ∀ e ∈ body k, isTestOf id e = false) :
+    let L := (List.range' 0 n).flatMap (fun k => LEvent.test id true k (p k) :: body k) ++
+      [LEvent.test id false n (p n)]
+    L.countP (isTestOf id) = n + 1 ∧ L.countP (isTrueTestOf id) = n := by
+  have hb' : ∀ k, ∀ e ∈ body k, isTrueTestOf id e = false := by
+    intro k e he
+    have := hb k e he
+    cases e <;> simp_all [isTestOf, isTrueTestOf]
+  have key : ∀ (d s : Nat),
+      ((List.range' s d).flatMap (fun k => LEvent.test id true k (p k) :: body k)).countP (isTestOf id) = d ∧
+      ((List.range' s d).flatMap (fun k => LEvent.test id true k (p k) :: body k)).countP (isTrueTestOf id) = d := by
+    intro d
+    induction d with
+    | zero => intro s; simp
+    | succ d ih =>
+      intro s
+      have h1 : (body s).countP (isTestOf id) = 0 := List.countP_eq_zero.mpr (by simpa using hb s)
+      have h2 : (body s).countP (isTrueTestOf id) = 0 := List.countP_eq_zero.mpr (by simpa using hb' s)
+      simp [List.range'_succ, List.countP_append, isTestOf, isTrueTestOf, h1, h2, ih (s + 1)]
+  simp [List.countP_append, key n 0, isTestOf, isTrueTestOf]
+
+/-- Outside that domain (documented by mahf: "a `Scope` is needed for nested loops"): an inner loop
+WITHOUT a `Scope` shares the enclosing loop's `Iterations`. Outer bound 5, inner bound 3: the outer
+loop makes 2 passes, the inner 3 in total; with the `Scope` they make 5 and 15. -/
+theorem unscoped_nest_shares_counter :
+    let inner := LItems.cons (.leaf 1) .nil
+    let bare := LItems.cons (.loop 0 5 (.cons (.leaf 0) (.cons (.loop 1 3 inner) .nil))) .nil
+    let wrapped := LItems.cons (.loop 0 5 (.cons (.leaf 0) (.cons (.scope (.cons (.loop 1 3 inner) .nil)) .nil))) .nil
+    let r0 : LReg Nat := { top := { iters := none, progress := none }, rest := [] }
+    wellScoped bare = false ∧ wellScoped wrapped = true ∧
+    ((logOf (lRun id 8 bare r0 [])).countP (isPassOf 0), (logOf (lRun id 8 bare r0 [])).countP (isPassOf 1)) = (2, 3) ∧
+    ((logOf (lRun id 8 wrapped r0 [])).countP (isPassOf 0), (logOf (lRun id 8 wrapped r0 [])).countP (isPassOf 1)) = (5, 15) := by
+  decide +kernel
+
+/-- Likewise two loops one after the other on the same registry level share the counter (`Loop::init`
+runs for both before either executes, `Loop::execute` does not reset it): after a loop bounded by 5
+a loop bounded by 3 makes no pass at all; each in its own `Scope` makes 5 and 3. -/
+theorem sequential_loops_share_counter :
+    let l1 := LItem.loop 0 5 (.cons (.leaf 0) .nil)
+    let l2 := LItem.loop 1 3 (.cons (.leaf 1) .nil)
+    let bare := LItems.cons l1 (.cons l2 .nil)
+    let wrapped := LItems.cons (.scope (.cons l1 .nil)) (.cons (.scope (.cons l2 .nil)) .nil)
+    let r0 : LReg Nat := { top := { iters := none, progress := none }, rest := [] }
+    wellScoped bare = false ∧ wellScoped wrapped = true ∧
+    ((logOf (lRun id 8 bare r0 [])).countP (isPassOf 0), (logOf (lRun id 8 bare r0 [])).countP (isPassOf 1)) = (5, 0) ∧
+    ((logOf (lRun id 8 wrapped r0 [])).countP (isPassOf 0), (logOf (lRun id 8 wrapped r0 [])).countP (isPassOf 1)) = (5, 3) := by
+  decide +kernel
+
+/-! Non-vacuity: a Loop → Scope → Loop → Scope → Loop tree is well-scoped; its model run from a
+state that already holds a counter (7) and a parent registry equals the specification. -/
+example :
+    let t := LItems.cons (.loop 0 2 (.cons (.leaf 0) (.cons (.scope (.cons (.loop 1 3 (.cons (.scope
+      (.cons (.loop 2 2 (.cons (.leaf 2) .nil)) .nil)) (.cons (.leaf 1) .nil))) .nil)) .nil))) .nil
+    wellScoped t = true ∧ maxNs t = 3 ∧
+    logOf (lRun id 4 t ({ top := { iters := some 7, progress := none }, rest := [{ iters := some 9, progress := some 1 }] } : LReg Nat) [])
+      = (specRun id t (some 7)).1 ∧
+    (logOf (lRun id 4 t ({ top := { iters := some 7, progress := none }, rest := [] } : LReg Nat) [])).countP (isPassOf 2) = 12 := by
+  decide +kernel
+example : (specRun (F := Nat) id (.cons (.loop 0 2 (.cons (.leaf 5) .nil)) .nil) none).1 =
+    [.test 0 true 0 (some 0), .pass 5 (some 0), .test 0 true 1 (some 0), .pass 5 (some 1), .test 0 false 2 (some 1)] := by
+  decide +kernel
+
+
+/-! ### Loops guarded by a composite condition built with `&`, `|`, `!` -/
+
+/-- A loop guarded by a composite of `iterations(n)` and `evaluations(m)` (body adding `step`
+evaluations per pass) makes exactly `p` passes, where `p` is the FIRST pass count at which the
+Boolean combination of `p < n` and `p · step < m` is false; it tests `p + 1` times — the log has
+one entry per pass count `0 … p`, each with BOTH progress values `k / n` and `k · step / m`
+(both operands are evaluated at every test) —, and ends with the counters at `p` and `p · step`. -/
+theorem loop_composite_passes {F : Type} [Div F] [OfNat F 0] (toF : Nat → F) (c : Conn) (n m step p fuel : Nat)
+    (hstop : goesOn c n m step p = false) (hgo : ∀ q, q < p → goesOn c n m step q = true) (hf : p + 1 ≤ fuel) :
+    loop2Run toF c n m step fuel =
+      some ({ it := p, ev := p * step, pit := toF p / toF n, pev := toF (p * step) / toF m, passes := p },
+        (List.range' 0 (p + 1)).map (specEv2 toF c n m step)) := by
+  have := loop2Go_least toF c n m step p hstop p 0 (by omega) (fun q _ h => hgo q h) fuel hf (0 : F) (0 : F) 0 []
+  simpa [loop2Run] using this
+
+/-- `iterations(n) & evaluations(m)` (also when written `!(!a | !b)`): the loop stops at the first
+bound that is reached — it makes `p ≤ n` passes with `p = n` or `m ≤ p · step`, and before that
+neither bound was reached. Such a `p` always exists; no assumption on `step`. -/
+theorem loop_and_stops_at_first_bound {F : Type} [Div F] [OfNat F 0] (toF : Nat → F) (c : Conn)
+    (hc : c = .and ∨ c = .nand) (n m step fuel : Nat) (hf : n + 1 ≤ fuel) :
+    ∃ p, p ≤ n ∧ (p = n ∨ m ≤ p * step) ∧ (∀ q, q < p → q < n ∧ q * step < m) ∧
+      ∃ s log, loop2Run toF c n m step fuel = some (s, log) ∧ s.passes = p ∧ log.length = p + 1 ∧
+        s.it = p ∧ s.ev = p * step ∧ s.pit = toF p / toF n ∧ s.pev = toF (p * step) / toF m := by
+  have hN : goesOn c n m step n = false := by rcases hc with h | h <;> subst h <;> simp [goesOn]
+  obtain ⟨p, hp, h1, h2⟩ := exists_first_stop (goesOn c n m step) n hN
+  refine ⟨p, hp, ?_, ?_, _, _, loop_composite_passes toF c n m step p fuel h1 h2 (by omega), rfl, by simp, rfl, rfl, rfl, rfl⟩
+  · rcases hc with h | h <;> subst h <;> simp [goesOn] at h1 <;> omega
+  · intro q hq
+    have := h2 q hq
+    rcases hc with h | h <;> subst h <;> simpa [goesOn] using this
+
+/-- `iterations(n) | evaluations(m)` with a body that adds at least one evaluation per pass: the loop
+runs until BOTH bounds are reached (`n ≤ p` and `m ≤ p · step`), and not longer. -/
+theorem loop_or_runs_until_both {F : Type} [Div F] [OfNat F 0] (toF : Nat → F)
+    (n m step fuel : Nat) (hs : 1 ≤ step) (hf : max n m + 1 ≤ fuel) :
+    ∃ p, n ≤ p ∧ m ≤ p * step ∧ (∀ q, q < p → q < n ∨ q * step < m) ∧
+      ∃ s log, loop2Run toF .or n m step fuel = some (s, log) ∧ s.passes = p ∧ log.length = p + 1 ∧
+        s.it = p ∧ s.ev = p * step ∧ s.pit = toF p / toF n ∧ s.pev = toF (p * step) / toF m := by
+  have hmul : max n m ≤ max n m * step := Nat.le_mul_of_pos_right _ hs
+  have hN : goesOn .or n m step (max n m) = false := by
+    simp [goesOn]; omega
+  obtain ⟨p, hp, h1, h2⟩ := exists_first_stop (goesOn .or n m step) (max n m) hN
+  simp [goesOn] at h1
+  refine ⟨p, h1.1, h1.2, ?_, _, _,
+    loop_composite_passes toF .or n m step p fuel (by simp [goesOn]; omega) h2 (by omega), rfl, by simp, rfl, rfl, rfl, rfl⟩
+  intro q hq
+  simpa [goesOn] using h2 q hq
+
+example : (loop2Run (F := Nat) id .and 7 10 3 8).map (fun r => (r.1.passes, r.1.it, r.1.ev, r.2.length)) = some (4, 4, 12, 5) := by decide
+example : (loop2Run (F := Nat) id .or 7 10 3 11).map (fun r => (r.1.passes, r.1.it, r.1.ev, r.2.length)) = some (7, 7, 21, 8) := by decide
+example : (loop2Run (F := Nat) id .nand 2 10 3 8).map (fun r => (r.1.passes, r.2.map (·.verdict))) = some (2, [true, true, false]) := by decide
+example : goesOn .and 7 10 3 4 = false ∧ ∀ q, q < 4 → goesOn .and 7 10 3 q = true := by decide
+
 
 end MahfModel.Props.C10
